@@ -33,6 +33,24 @@ type WALFileInfo struct {
 	MaxSeq    uint64    // Maximum sequence number in the file
 }
 
+// SetUnflushedFrom tells the WAL that every entry below seq is stored in table
+// files, so the log files holding only such entries are no longer needed for
+// recovery. The value only moves forward, except that the first call starts the
+// tracking.
+func (w *WAL) SetUnflushedFrom(seq uint64) {
+	for {
+		cur := atomic.LoadUint64(&w.unflushedFrom)
+		if seq <= cur || atomic.CompareAndSwapUint64(&w.unflushedFrom, cur, seq) {
+			return
+		}
+	}
+}
+
+// UnflushedFrom returns the value set by SetUnflushedFrom (0 = not tracked)
+func (w *WAL) UnflushedFrom() uint64 {
+	return atomic.LoadUint64(&w.unflushedFrom)
+}
+
 // ManageRetention applies the retention policy to WAL files.
 // Returns the number of files deleted and any error encountered.
 func (w *WAL) ManageRetention(config WALRetentionConfig) (int, error) {
@@ -148,9 +166,16 @@ func (w *WAL) ManageRetention(config WALRetentionConfig) (int, error) {
 		}
 	}
 
+	// A log file with an entry that is in no table file yet is the only durable copy
+	// of that entry: recovery needs it, whatever the replicas have acknowledged
+	unflushedFrom := w.UnflushedFrom()
+
 	// Delete the files marked for deletion
 	deleted := 0
 	for _, fi := range fileInfos {
+		if unflushedFrom > 0 && fi.MaxSeq >= unflushedFrom {
+			continue
+		}
 		if toDelete[fi.Path] {
 			if err := os.Remove(fi.Path); err != nil {
 				// Log the error but continue with other files
